@@ -67,6 +67,9 @@ TEXT = {
     "C11": dict(technique="property-based testing (rapid) of generated concurrent workloads under the race detector: concurrent results == precomputed sequential results",
                 text="Generated workloads (3-6 shared Regexps, 150-2000 calls over 13 entry points incl. timed and stack-limited calls, more distinct replacements than the cache holds, inputs crossing pooled-buffer classes) x G in {2,4,8,32} goroutines x GOMAXPROCS in {1,2,4,16} x generated yield points; every concurrent result equals the sequential result on a fresh Regexp; built with -race, any race report fails the run (the workload that was running is saved as the replay).",
                 note="Schedules are sampled by the Go scheduler, not enumerated: a regression guard for the runner pool, active-program reset, bitmap immutability, LRU mutex, global pools and clock; not an exhaustive interleaving exploration (DESIGN section 9).", ref="§6 C11"),
+    "C04": dict(technique="property-based testing (rapid) with bounded-exhaustive inputs: validity predicate per published fact at every position where a single-position attempt of the same program matches",
+                text="F-accel / F-full / corpus patterns x options x code-gen on/off x both directions; every string up to length 4-5 over a pattern-derived alphabet plus sampled longer strings; every attempt position and two \\G origins: each published fact (min/max length, leading/trailing anchors, Anchors bits, leading prefix(es), fixed-distance literal and sets with their summaries, literal after loop, landmark chain, first-char set, Boyer-Moore prefix) must hold wherever the program actually matches.",
+                note="Matching positions come from the verif-only single-attempt hook (no candidate search), so an over-strong fact cannot hide its counter-examples. Predicates are written from the documented meaning of the fields.", ref="§6 C04"),
 }
 
 PENDING = "check not built yet in this session (work in progress; see DESIGN.md section 6 for the planned generated-input check)"
